@@ -65,6 +65,9 @@ pub struct VState {
 pub struct VelModel {
     pub max_ops: usize,
     pub monitors: bool,
+    /// the node takes its limits from the chain-aware validator factory (as vlsd builds it)
+    #[serde(default)]
+    pub onchain: bool,
 }
 
 impl VState {
@@ -130,11 +133,13 @@ impl Model for VelModel {
     }
 
     fn name(&self) -> String {
-        format!("nodevel(ops<={}{})", self.max_ops, if self.monitors { ",monitors" } else { "" })
+        format!("nodevel(ops<={}{}{})", self.max_ops, if self.monitors { ",monitors" } else { "" }, if self.onchain { ",on-chain validator factory" } else { "" })
     }
 
     fn init(&self) -> VState {
-        VState { w: Some(World::new(cfg())), ghost: Ghost { next_hash: 10, ..Default::default() }, dead: false, nops: 0 }
+        let mut c = cfg();
+        c.onchain = self.onchain;
+        VState { w: Some(World::new(c)), ghost: Ghost { next_hash: 10, ..Default::default() }, dead: false, nops: 0 }
     }
 
     fn alive(&self, s: &VState) -> bool {
@@ -324,12 +329,28 @@ pub struct VelRun {
 }
 
 pub fn explore(tier: Tier, monitors: bool, wall_s: f64) -> VelRun {
-    let m = VelModel { max_ops: if monitors { tier.pick(3, 5) } else { tier.pick(5, 7) }, monitors };
+    // a shallower search under the chain-aware factory first, then the main one with what is left
+    let t0 = std::time::Instant::now();
     let mut found = vec![];
-    let lim = Limits { max_depth: m.max_ops, max_states: 3_000_000, wall_s };
-    let st = bfs(&m, &lim, &mut found);
-    let models = vec![format!("{}: states={} transitions={} closed={} bounded_complete={} depth={} t={:.1}s", m.name(), st.states, st.transitions, st.closed, st.bounded_complete, st.max_depth, st.wall_s)];
-    VelRun { stats: st, found, models }
+    let mut models = vec![];
+    let mut total = BfsStats { closed: true, bounded_complete: true, ..Default::default() };
+    let main_depth = if monitors { tier.pick(3, 5) } else { tier.pick(5, 7) };
+    let mut cfgs = vec![];
+    if !monitors {
+        cfgs.push(VelModel { max_ops: tier.pick(3, 5), monitors, onchain: true });
+    }
+    cfgs.push(VelModel { max_ops: main_depth, monitors, onchain: false });
+    let n = cfgs.len();
+    for (i, m) in cfgs.into_iter().enumerate() {
+        let per = (wall_s - t0.elapsed().as_secs_f64()).max(1.0) / (n - i) as f64 * if i + 1 < n { 0.5 } else { 1.0 };
+        let lim = Limits { max_depth: m.max_ops, max_states: 3_000_000, wall_s: per };
+        let st = bfs(&m, &lim, &mut found);
+        models.push(format!("{}: states={} transitions={} closed={} bounded_complete={} depth={} t={:.1}s", m.name(), st.states, st.transitions, st.closed, st.bounded_complete, st.max_depth, st.wall_s));
+        let bc = total.bounded_complete && st.bounded_complete;
+        merge_stats(&mut total, &st);
+        total.bounded_complete = bc;
+    }
+    VelRun { stats: total, found, models }
 }
 
 pub fn replay_ops(v: &serde_json::Value) -> Vec<Vio> {
